@@ -19,7 +19,8 @@ CONSTANTS Frames,          \* set of frame records
           DevIncludePlusOne,   \* as-built (open finding, pinned by a repository test): included lines are +1
           DevColonNested,      \* as-built before the fix: a ::: directive whose body starts with a ::: fence is +1 inside
           DevFirstLine,        \* as-built (open finding): body text on the fence line gets the next line's number
-          DevRestoreToTop      \* a seeded change: after an include the source is reset to the top-level file
+          DevRestoreToTop,     \* a seeded change: after an include the source is reset to the top-level file
+          DevAttribution       \* as-built before the fix: a quote directive's attribution is reported one line early
 
 Paths == UNION {[1..n -> Frames] : n \in 0..MaxDepth}
 OptLines(f) == IF f.opt = "none" THEN 0 ELSE IF f.opt = "colon" THEN f.nopt ELSE f.nopt + 2
@@ -105,9 +106,15 @@ Exit == /\ k > Len(path) + 1 /\ k <= 2 * Len(path) + 1
                f == path[n]
                h == Height(path, leaf, n + 1)
                i == inner[n]
-           IN /\ marks' = IF f.post = 1
-                           THEN Append(marks, [what |-> "after", m |-> i.base + i.row + h + 1 + 1, s |-> i.abs + h + 1, src |-> src, ssrc |-> ssrc])
-                           ELSE marks
+               after == IF f.post = 1
+                        THEN <<[what |-> "after", m |-> i.base + i.row + h + 1 + 1, s |-> i.abs + h + 1, src |-> src, ssrc |-> ssrc]>>
+                        ELSE <<>>
+               (* MockState.block_quote: the attribution line's index in the directive body, counted like nested_parse *)
+               attr == IF IsDir(f) /\ f.dname = "epigraph"
+                       THEN <<[what |-> "attribution", m |-> i.base + i.row + (h + 2 * f.post + 1) + (IF DevAttribution THEN 0 ELSE 1),
+                               s |-> i.abs + h + 2 * f.post + 1, src |-> src, ssrc |-> ssrc]>>
+                       ELSE <<>>
+           IN /\ marks' = marks \o after \o attr
               /\ src' = IF f.w = "inc" THEN (IF DevRestoreToTop THEN 0 ELSE i.osrc) ELSE src
               /\ ssrc' = IF f.w = "inc" THEN i.ossrc ELSE ssrc
         /\ k' = k + 1 /\ UNCHANGED <<path, pre, leaf, inner, base, row, abs>>
